@@ -5,3 +5,8 @@ import ThunderProofs.Properties.C06
 #print axioms TM.Properties.C06.gateway_eq_monolith
 #print axioms TM.Properties.C06.exec_pointwise
 #print axioms TM.Properties.C06.extract_stitch_aligned
+#print axioms TM.Properties.C06.normalize_keeps_answer
+#print axioms TM.Properties.C06.normalize_is_normalized
+#print axioms TM.Properties.C06.gateway_eq_monolith_raw
+#print axioms TM.Properties.C06.old_first_directive_decides
+#print axioms TM.Properties.C06.old_dedup_loses_subselection
